@@ -236,6 +236,9 @@ func (s PShape) forbidden(part string) map[string]bool {
 		return f
 	}
 	st, ex := s.WireStyle(), s.EffExplode()
+	if s.Loc == "query" && !ex {
+		f["comma"] = true // the unexploded form value is split on ',' whatever the shape
+	}
 	if s.T.Shape == "arr" || s.T.Shape == "obj" {
 		switch st {
 		case "simple":
@@ -394,6 +397,11 @@ func transportOK(loc string, v PValue) bool {
 		switch loc {
 		case "header":
 			if p != strings.TrimSpace(p) {
+				return false
+			}
+		case "path":
+			// "." and ".." are dot-segments (RFC 3986 §5.2.4): no URL can carry them as a segment
+			if v.K == "prim" && (p == "." || p == "..") {
 				return false
 			}
 		}
